@@ -140,32 +140,32 @@ EXTRA = {
  "C01": " Two retained handles to the array are used in turn; bare / NumPy-integer index 0 and append axes outside "
         "0..rank-1 (NumPy reading or refusal, never an overwrite) are generated.",
  "C02": " Handles are obtained fresh, cached or two-in-turn; numeric attributes get int-then-fractional writes and "
-        "descriptor attributes are part of the reference model.",
+        "descriptor attributes are part of the reference model. Frames get units, further columns and rows inside the histories; a type-changing property assignment is attempted (refused, or last write wins).",
  "C03": " Names that differ only by Unicode normalisation form, case or blanks, and nested sources repeating a top-level "
-        "name inside link lists, are generated.",
- "C04": " Owner handles warmed by index / id / name lookups before a delete must not yield the deleted entity afterwards.",
+        "name inside link lists, are generated. A handle obtained through a link list or metadata link is a member of the container that owns the entity.",
+ "C04": " Owner handles warmed by index / id / name lookups before a delete must not yield the deleted entity afterwards. The object to delete may have been obtained through a link, or be handed to the container at the top of its tree instead of its direct parent (deleted, or refused without any change - never another entity).",
  "C05": " extend([acceptable..., unacceptable]) must link nothing; re-pointing a slot or list from an entity to its "
-        "id-preserving copy must denote the copy; handles kept since before a mutation are access paths too. Stale handles of deleted sources must be refused by every sources list; a feature retargeted frame -> array denotes the array.",
+        "id-preserving copy must denote the copy; handles kept since before a mutation are access paths too. Stale handles of deleted sources must be refused by every sources list; a feature retargeted frame -> array denotes the array. Candidates for link lists are also handed over as handles obtained through links / role slots / searches; explicit ticks equal to the linked values must still replace the link.",
  "C06": " Windows that begin before the array are read and written element by element: refused or the NumPy reading. The extent is changed through another handle while a long-lived handle stays in use.",
  "C07": " Geometry is written through a fresh descriptor handle and queried through a long-lived one.",
  "C08": " Exactness is decided per boundary and a start that is bit-identical to a reported sample coordinate is pinned "
-        "to that sample; repeated tick values and calibrated positions / extents arrays are generated. The same tag object is asked again after the unit of an addressed axis changed.",
- "C11": " Existing files that are not HDF5 at all (text, bytes, truncated NIX files) must be refused with bytes unchanged. A read-only session that follows a refused read-write open in the same process is still read-only.",
+        "to that sample; repeated tick values and calibrated positions / extents arrays are generated. The same tag object is asked again after the unit of an addressed axis changed. References and features are addressed by position, negative position, name and id while a second reference / feature with other data is present; deprecated spellings are compared with the current ones; multi-tag positions / extents kept in narrow integer types whose sum exceeds the type.",
+ "C11": " Existing files that are not HDF5 at all (text, bytes, truncated NIX files) must be refused with bytes unchanged. A read-only session that follows a refused read-write open in the same process is still read-only. Invalid ids include well-formed ids followed by more text; overwrite while another handle of the process holds the file open is refused without change or yields a fresh empty file.",
  "C12": " The catalogue includes refusals that depend on prior state (derived names taken, linked descriptors, a kept "
-        "handle after delete_dimensions, later-item faults).",
+        "handle after delete_dimensions, later-item faults). Index vectors handed over as ndarrays, multi-tag positions / extents of another block, unsupported column types and unstorable text in frames.",
  "C13": " After the first round of queries the tree is mutated (unlink, relink, add, delete, id-keeping copy) and "
         "everything is asked again in the same session.",
  "C14": " Validation is repeated before every injection in the same session (no state may survive a validation); linked "
-        "tick vectors are resized.",
- "C16": " Frame handles are single, fresh or two-in-turn; calls whose later row is unacceptable must apply nothing. Record arrays whose field order differs from their byte order, and index lists that are not strictly increasing (refused, or applied in order).",
+        "tick vectors are resized. Paired injection: the same non-SI string on an axis and on the tag that addresses it.",
+ "C16": " Frame handles are single, fresh or two-in-turn; calls whose later row is unacceptable must apply nothing. Record arrays whose field order differs from their byte order, and index lists that are not strictly increasing (refused, or applied in order). Values the storage layer cannot take (NumPy fixed-width text / object column types, text with an embedded NUL or a lone surrogate): accepted, or refused with the table unchanged.",
  "C17": " The writer runs under an advancing clock; generated flush intervals hold one kind of op only; for part of the "
         "crash points the expected state comes from a second, normally closing writer while the killed one never reads "
-        "its file back. Paths that already hold a file are overwritten; every writer starts in a clean directory.",
- "C18": " Units in spellings this library would not write (micro signs, blanks) must read unchanged after the upgrade. Nearly equal per-value extras; the interrupting fault is an error, a kill or an OSError.",
+        "its file back. Paths that already hold a file are overwritten; every writer starts in a clean directory. In a quarter of the histories the writer is a second handle of a process that keeps the file open for writing.",
+ "C18": " Units in spellings this library would not write (micro signs, blanks) must read unchanged after the upgrade. Nearly equal per-value extras; the interrupting fault is an error, a kill or an OSError. Old properties held in every integer width, uint64 values beyond int64 included.",
  "C19": " Handles retained since creation / reopen must report the stored timestamps after every op; forced times "
-        "(second 0, ahead of the clock) are followed by descriptive changes. Change - force - change within one clock second through retained handles.",
+        "(second 0, ahead of the clock) are followed by descriptive changes. Change - force - change within one clock second through retained handles. Forced seconds are read back under seven POSIX time zones, placed around the zones' own daylight-saving switches (repeated and missing hours); frames get units / columns / rows with automatic timestamps on and off.",
  "C20": " Link targets are compared by an id-free content digest; sources are also taken through link lists and role "
-        "links; section links inside the copied tree are generated. Sources that already hold an id-keeping duplicate; mutations through the links of either side.",
+        "links; section links inside the copied tree are generated. Sources that already hold an id-keeping duplicate; mutations through the links of either side. The link lists and owned containers of the copy must answer for their members by id, by name and by object (children with id-like names included); children are deleted on either side.",
 }
 PENDING = {}
 LEVELS = {"C12": "fault_enumeration", "C18": "fault_enumeration", "C17": "fault_enumeration"}
